@@ -1,4 +1,129 @@
-/- Driver of the `safeprice` world (stub: to be written by the owner of this world). -/
+/-
+  Driver of the `safeprice` world: the pair model (`Mx.Pair.step`, whose every reserve-changing
+  operation records a price observation first) plus the safe-price read side
+  (`Mx.SafePrice`).  Replays an ops file and prints one result line per op / query line.
+  Import-free apart from Core/Driver modules.
+
+  ops:     addLiq u a1 a2 m1 m2 | removeLiq u lp m1 m2 | swapIn u d a min | swapOut u d max out
+           swapNoFee c d a | buyback c lp first|second | whitelist c | advance round
+           prefill n cur base g p q x1 y1 z1 x2 y2 z2 xS yS zS     (synthetic observation buffer)
+           updPrice u tok amt | updPos u liq                        (the `updateAndGet…` endpoints)
+  queries: price s e tok amt | priceOff off tok amt | priceTs ts tok amt | priceDef tok amt
+           lp s e liq | lpOff off liq | lpTs ts liq | lpDef liq | obs round
+           (each followed by one routing word — which contract answers the view — ignored here)
+  `tok` is `ab` (pay the first token), `ba` (pay the second) or `x` (a foreign token).
+-/
+import MxModel.Core.SafePrice
 import MxModel.Driver.Proto
 
-def main : IO Unit := Mx.Proto.mainLoop () (fun s _ => (s, none))
+open Mx Mx.Pair Mx.Proto
+
+namespace Mx.SafePriceDriver
+
+inductive WOp
+  | pair (o : Op)
+  | prefill (f : SafePrice.Fill)
+  | updPrice (d : Option Dir) (amt : Nat)
+  | updPos (liq : Nat)
+
+def parseDir : String → Option Dir
+  | "ab" => some .ab
+  | "ba" => some .ba
+  | _ => none
+
+/-- input token of a price query: a pool token (direction) or a foreign token -/
+def parseTok : String → Option (Option Dir)
+  | "ab" => some (some .ab)
+  | "ba" => some (some .ba)
+  | "x" => some none
+  | _ => none
+
+def parseWant : String → Option Want
+  | "first" => some .first
+  | "second" => some .second
+  | _ => none
+
+def parseOp : List String → Option WOp
+  | ["addLiq", _u, a1, a2, m1, m2] => do
+      pure (.pair (.addLiq (← a1.toNat?) (← a2.toNat?) (← m1.toNat?) (← m2.toNat?)))
+  | ["removeLiq", _u, lp, m1, m2] => do
+      pure (.pair (.removeLiq (← lp.toNat?) (← m1.toNat?) (← m2.toNat?)))
+  | ["swapIn", _u, d, a, m] => do pure (.pair (.swapIn (← parseDir d) (← a.toNat?) (← m.toNat?)))
+  | ["swapOut", _u, d, mx, o] => do pure (.pair (.swapOut (← parseDir d) (← mx.toNat?) (← o.toNat?)))
+  | ["swapNoFee", c, d, a] => do pure (.pair (.swapNoFee (← c.toNat?) (← parseDir d) (← a.toNat?)))
+  | ["buyback", c, lp, w] => do pure (.pair (.buyback (← c.toNat?) (← lp.toNat?) (← parseWant w)))
+  | ["whitelist", c] => do pure (.pair (.cfg (.whitelist (← c.toNat?))))
+  | ["advance", r] => do pure (.pair (.advance (← r.toNat?)))
+  | "prefill" :: rest => do
+      match ← nats rest with
+      | [n, cur, base, g, p, q, x1, y1, z1, x2, y2, z2, xS, yS, zS] =>
+          pure (.prefill ⟨n, cur, base, g, p, q, x1, y1, z1, x2, y2, z2, xS, yS, zS⟩)
+      | _ => none
+  | ["updPrice", _u, t, a] => do pure (.updPrice (← parseTok t) (← a.toNat?))
+  | ["updPos", _u, l] => do pure (.updPos (← l.toNat?))
+  | _ => none
+
+def wstep (s : St) : WOp → Option (St × Out)
+  | .pair o => step s o
+  | .prefill f => (SafePrice.prefill s f).map (·, {})
+  | .updPrice d a => (SafePrice.updateAndGetSafePrice s d a).map fun v => (s, ⟨v, 0, 0⟩)
+  | .updPos l => (SafePrice.updateAndGetPosition s l).map fun (a, b) => (s, ⟨a, b, 0⟩)
+
+def showState (s : St) : String :=
+  let l := s.sp.last
+  s!"r={s.r1},{s.r2} S={s.S} round={s.round} " ++
+  s!"sp={s.sp.cur},{s.sp.obs.length},{l.acc1},{l.acc2},{l.accS},{l.w},{l.round}"
+
+def initOf (ws : List String) : St :=
+  let total := (kvNat ws "total").getD 300
+  let special := (kvNat ws "special").getD 50
+  let cap := (kvNat ws "cap").getD 65536
+  { Pair.init total special none cap with status := .active }
+
+def showPair : Nat × Nat → String
+  | (a, b) => s!"{a} {b}"
+
+def view (s : St) : List String → Option String
+  | ["price", st, en, t, a] => do
+      let v ← SafePrice.getSafePrice s (← st.toNat?) (← en.toNat?) (← parseTok t) (← a.toNat?)
+      pure (toString v)
+  | ["priceOff", off, t, a] => do
+      let v ← SafePrice.getSafePriceByRoundOffset s (← off.toNat?) (← parseTok t) (← a.toNat?)
+      pure (toString v)
+  | ["priceTs", ts, t, a] => do
+      let v ← SafePrice.getSafePriceByTimestampOffset s (← ts.toNat?) (← parseTok t) (← a.toNat?)
+      pure (toString v)
+  | ["priceDef", t, a] => do
+      let v ← SafePrice.getSafePriceByDefaultOffset s (← parseTok t) (← a.toNat?)
+      pure (toString v)
+  | ["lp", st, en, l] => do
+      pure (showPair (← SafePrice.getLpSafePrice s (← st.toNat?) (← en.toNat?) (← l.toNat?)))
+  | ["lpOff", off, l] => do
+      pure (showPair (← SafePrice.getLpSafePriceByRoundOffset s (← off.toNat?) (← l.toNat?)))
+  | ["lpTs", ts, l] => do
+      pure (showPair (← SafePrice.getLpSafePriceByTimestampOffset s (← ts.toNat?) (← l.toNat?)))
+  | ["lpDef", l] => do
+      pure (showPair (← SafePrice.getLpSafePriceByDefaultOffset s (← l.toNat?)))
+  | ["obs", q] => do
+      let o ← SafePrice.getPriceObservation s (← q.toNat?)
+      pure s!"{o.acc1} {o.acc2} {o.accS} {o.w} {o.round}"
+  | _ => none
+
+def handle (s : St) (line : String) : St × Option String :=
+  match words line with
+  | "W" :: rest => (initOf rest, some (" ".intercalate ("W" :: rest)))
+  | "O" :: n :: rest =>
+      match (parseOp rest).bind (wstep s) with
+      | some (s', o) => (s', some s!"R {n} ok {o.v1} {o.v2} {o.v3} | {showState s'}")
+      | none => (s, some s!"R {n} err")
+  | "Q" :: n :: rest =>
+      match view s rest.dropLast with
+      | some v => (s, some s!"V {n} ok {v}")
+      | none => (s, some s!"V {n} err")
+  | _ => (s, none)
+
+end Mx.SafePriceDriver
+
+def main : IO Unit :=
+  Mx.Proto.mainLoop ({ Mx.Pair.init 300 50 none 65536 with status := .active })
+    Mx.SafePriceDriver.handle
